@@ -46,6 +46,7 @@ func C05(r *core.Run) {
 	detachedCommentsStayDetached(r)
 	commentLinesKeepEmpty(r)
 	referenceNamesResolve(r)
+	jsonDefaultIsProtocs(r)
 	presentNeverSkipped(r, printRel+"/optionreflect", "walkOptionMessage", "every populated option field is printed")
 	nestedSkipsMapEntries(r, printRel) // a map entry printed as a nested message duplicates the map field
 	// option string values are rendered by an adaptation of prototext's escaper, which the .proto parser reads back
